@@ -185,6 +185,8 @@ def c20(tier):
     pm.es2(P, C)
     C.extra["units"] = sorted(P.units.keys())
     C.extra["mutators"] = [ts.fshort(f) for f in ts.mutators(P)]
+    # an operation given containers of the wrong length refuses them; it does not subscript past their end (assert is not a check)
+    kb.kb10(P, C)
     return C.finish()
 
 
@@ -489,6 +491,8 @@ def c11(tier):
     sp.sp6(P, C)
     sp.sp7(P, C)
     sp.sp8(P, C)
+    # 'terminates and returns the optimum': leaving the outer loop on the iteration cap is not convergence
+    sg.sg9(P, C)
     return C.finish()
 
 
